@@ -1,6 +1,7 @@
 package harness
 
 import (
+	"compress/gzip"
 	"bufio"
 	"bytes"
 	"errors"
@@ -50,6 +51,7 @@ type c03Conn struct {
 type c03Plan struct {
 	WriteBuf  int       `json:"write_buffer_size"`
 	ReduceMem bool      `json:"reduce_memory_usage"`
+	Compress  bool      `json:"compress_handler,omitempty"` // C34: handlers run behind CompressHandler, clients accept gzip (compressed body streams)
 	Conns     []c03Conn `json:"conns"`
 }
 
@@ -147,7 +149,7 @@ func genC03Req(e *Env, id string, streamy bool) c03Req {
 
 func scenC03(e *Env) func() {
 	streamy := e.Prop == "C34"
-	p := &c03Plan{WriteBuf: Pick(e, 4096, 4096, 512, 16384), ReduceMem: e.Chance(30)}
+	p := &c03Plan{WriteBuf: Pick(e, 4096, 4096, 512, 16384), ReduceMem: e.Chance(30), Compress: streamy && e.Chance(30)}
 	nconn := e.Range(1, 3)
 	var subs []simnet.Faults
 	for ci := 0; ci < nconn; ci++ {
@@ -180,6 +182,7 @@ type instrStream struct {
 	fault    string
 	at       int
 	eofData  bool
+	slowClose bool
 	reads    int
 	closes   int
 	readAfterClose int
@@ -223,7 +226,11 @@ func (s *instrStream) Read(p []byte) (int, error) {
 func (s *instrStream) Close() error {
 	s.mu.Lock()
 	s.closes++
+	slow := s.slowClose
 	s.mu.Unlock()
+	if slow {
+		time.Sleep(time.Millisecond) // a Close that takes a moment: others may run meanwhile
+	}
 	return nil
 }
 
@@ -287,7 +294,7 @@ func c03Apply(ctx *fasthttp.RequestCtx, r *c03Req) *c03Model {
 			ctx.Response.SetBodyRaw(b)
 			setBody(b)
 		case "stream":
-			st := &instrStream{id: r.ID, data: bodyPat(r.ID+"s", op.N), chunk: op.Chunk, fault: op.Err, at: op.At, eofData: op.EOFWithData}
+			st := &instrStream{id: r.ID, data: bodyPat(r.ID+"s", op.N), chunk: op.Chunk, fault: op.Err, at: op.At, eofData: op.EOFWithData, slowClose: op.Chunk%2 == 1}
 			m.streams = append(m.streams, st)
 			ctx.SetBodyStream(st, op.M)
 			m.produced = op.N
@@ -353,7 +360,7 @@ func c03Run(e *Env, p *c03Plan, subs []simnet.Faults) {
 	}
 	var mu sync.Mutex
 	models := map[string]*c03Model{}
-	k.Handle = func(ctx *fasthttp.RequestCtx, inv *Inv) {
+	inner := func(ctx *fasthttp.RequestCtx) {
 		id := string(ctx.QueryArgs().Peek("id"))
 		r := byID[id]
 		if r == nil {
@@ -364,6 +371,11 @@ func c03Run(e *Env, p *c03Plan, subs []simnet.Faults) {
 		models[id] = m
 		mu.Unlock()
 	}
+	handler := inner
+	if p.Compress {
+		handler = fasthttp.CompressHandler(inner)
+	}
+	k.Handle = func(ctx *fasthttp.RequestCtx, inv *Inv) { handler(ctx) }
 	k.Start()
 	type connRes struct {
 		raw      []byte
@@ -396,6 +408,9 @@ func c03Run(e *Env, p *c03Plan, subs []simnet.Faults) {
 				}
 				if r.Proto == "HTTP/1.0" {
 					hdr += "Connection: keep-alive\r\n"
+				}
+				if p.Compress {
+					hdr += "Accept-Encoding: gzip\r\n"
 				}
 				reqs = append(reqs, []byte(fmt.Sprintf("%s /c3?id=%s %s\r\nHost: x\r\n%s\r\n%s", r.Method, r.ID, r.Proto, hdr, body)))
 			}
@@ -553,6 +568,32 @@ func c03Judge(e *Env, p *c03Plan, ci int, raw, sent []byte, aborted, closed bool
 		resp.Body.Close()
 		e.Ob(1)
 		tag := fmt.Sprintf("conn %d response %d (%s %s %s, program %+v)", ci, i, r.ID, r.Method, r.Proto, r.Ops)
+		if p.Compress {
+			// behind CompressHandler the framing is the compressor's; what is judged is the
+			// decoded content of intact streams (and, below, the close accounting of every stream)
+			if m.fault == "" && (m.declared < 0 || m.declared == len(m.body)) && !noBodyFor(r.Method, m) && berr == nil && !aborted {
+				dec := body
+				if resp.Header.Get("Content-Encoding") == "gzip" {
+					zr, err := gzip.NewReader(bytes.NewReader(body))
+					if err == nil {
+						dec, err = io.ReadAll(zr)
+					}
+					if err != nil {
+						e.Violation("body/compressed", "%s: the gzip body does not decode: %v", tag, err)
+						return
+					}
+					e.Probe("compressed-stream")
+				}
+				if !bytes.Equal(dec, m.body) {
+					e.Violation("body/compressed", "%s: decoded body has %d bytes, the handler built %d (first difference at %d)", tag, len(dec), len(m.body), firstDiff(dec, m.body))
+					return
+				}
+			}
+			if m.close || resp.Close || m.fault != "" || (m.declared >= 0 && m.declared != len(m.body)) {
+				return
+			}
+			continue
+		}
 		if resp.StatusCode != m.status {
 			e.Violation("status", "%s: status %d on the wire, handler set %d", tag, resp.StatusCode, m.status)
 			return
